@@ -770,7 +770,7 @@ type SOp struct {
 
 // execScenario runs ops on a fresh MeterProvider; every Collect (plus a final observing one if
 // observe is set) yields a Col line. Returns the trace lines and the last observation.
-func execScenario(sc int, c *Cfg, table []ranked, ops []SOp, observe string) (lines []map[string]any, last any, panicked any) {
+func execScenario(sc int, c *Cfg, table []ranked, ops []SOp, observe string) (lines []map[string]any, obs []any, panicked any) {
 	defer func() {
 		if r := recover(); r != nil {
 			panicked = r
@@ -811,11 +811,13 @@ func execScenario(sc int, c *Cfg, table []ranked, ops []SOp, observe string) (li
 		}
 		agg, shape, desc := run.collect(d)
 		check() // the previous report, after further measurements and a collection into other memory
+		var last any
 		if c.Kind == "expo" {
 			last = projectExpo(s, agg, shape)
 		} else {
 			last = projectHist(s, agg, shape)
 		}
+		obs = append(obs, last)
 		ncol++
 		lines = append(lines, map[string]any{"ev": "Col", "sc": sc, "obs": last, "dest": desc, "fp": fpAggregation(agg)})
 		live = append(live, liveRM{run.rm, ncol, desc})
@@ -838,7 +840,7 @@ func execScenario(sc int, c *Cfg, table []ranked, ops []SOp, observe string) (li
 		flush()
 	}
 	check()
-	return lines, last, nil
+	return lines, obs, nil
 }
 
 // abstractExpo computes the abstract value of a measurement for the exponential model. The SDK
@@ -873,8 +875,21 @@ type edgeAct struct {
 var destClasses = []string{"fresh", "own", "same", "other"}
 
 // observeClass picks the destination class of the observing collect that follows a replayed
-// Record edge (a Collect edge names its own).
+// Collect edge (which names the class of its own collect; a Record edge is observed with every class).
 func observeClass(i int) string { return destClasses[(i/2+int(vh.Seed()))%len(destClasses)] }
+
+// obsKey identifies what TLC would be asked to judge: identical observation sequences of one
+// edge under several destination classes are judged once.
+func obsKey(lines []map[string]any) string {
+	var parts []any
+	for _, l := range lines {
+		if l["ev"] == "Col" {
+			parts = append(parts, l["obs"])
+		}
+	}
+	b, _ := json.Marshal(parts)
+	return fmt.Sprint(chkDiffers(lines)) + string(b)
+}
 
 type ePoint struct {
 	Present bool    `json:"present"`
@@ -1002,30 +1017,55 @@ func replayExpo(g *vh.Graph, c *Cfg, vals []AVal, rep int, tw *vh.TraceWriter, r
 				ops = append(ops, SOp{M: conc[a.I-1], A: av})
 			}
 		}
-		var want eState
+		var from, want eState
+		vh.Must(json.Unmarshal(e.From, &from))
 		vh.Must(json.Unmarshal(e.To, &want))
-		cc := *c
-		cc.Gauge = i%3 == 0
-		lines, last, p := execScenario(i, &cc, table, ops, observeClass(i))
-		res.Executed++
-		res.Count("path_"+acts[len(acts)-1].Path, 1)
-		if p != nil {
-			res.AddMismatch(vh.Mismatch{Kind: "panic", Case: map[string]any{"sc": i}, Path: acts, Detail: fmt.Sprint(p)})
-			continue
+		lastAct := acts[len(acts)-1]
+		classes := destClasses
+		if lastAct.Op == "Collect" {
+			classes = []string{observeClass(i)}
 		}
-		got := last.(EObs)
-		if expoEqual(got, want.Ipt, false) {
-			res.Count("equals_impl_shaped_state", 1)
-		}
-		if chkDiffers(lines) {
-			res.Count("replayed_reports_changed_later", 1)
-		}
-		if !expoEqual(got, want.Pt, false) || chkDiffers(lines) {
-			res.AddMismatch(vh.Mismatch{Kind: "refdiff", Case: map[string]any{"sc": i}, Path: acts[:len(acts)-1], Act: acts[len(acts)-1],
-				Want: want.Pt, Got: got, Detail: fmt.Sprintf("concrete values %v", concList(ops))})
-			for _, l := range lines {
-				tw.Emit(l)
+		judged := map[string]bool{}
+		var got EObs
+		finals := map[string]bool{}
+		for ci, cls := range classes {
+			cc := *c
+			cc.Gauge = (i+ci)%3 == 0
+			lines, obs, p := execScenario(i*4+ci, &cc, table, ops, cls)
+			res.Executed++
+			res.Count("path_"+lastAct.Path, 1)
+			if p != nil {
+				res.AddMismatch(vh.Mismatch{Kind: "panic", Case: map[string]any{"sc": i, "dest": cls}, Path: acts, Detail: fmt.Sprint(p)})
+				continue
 			}
+			got = obs[len(obs)-1].(EObs)
+			if fb, _ := json.Marshal(got); true {
+				finals[string(fb)] = true
+			}
+			if expoEqual(got, want.Ipt, false) {
+				res.Count("equals_impl_shaped_state", 1)
+			}
+			if chkDiffers(lines) {
+				res.Count("replayed_reports_changed_later", 1)
+			}
+			differs := !expoEqual(got, want.Pt, false) || chkDiffers(lines)
+			if lastAct.Op == "Collect" && len(obs) >= 2 && !expoEqual(obs[len(obs)-2].(EObs), from.Pt, false) {
+				differs = true // what the edge's own collect reported (a delta stream then forgets it)
+			}
+			if differs {
+				res.AddMismatch(vh.Mismatch{Kind: "refdiff", Case: map[string]any{"sc": i, "dest": cls}, Path: acts[:len(acts)-1], Act: lastAct,
+					Want: want.Pt, Got: got, Detail: fmt.Sprintf("concrete values %v", concList(ops))})
+				if k := obsKey(lines); !judged[k] {
+					judged[k] = true
+					for _, l := range lines {
+						tw.Emit(l)
+					}
+				}
+			}
+		}
+		if len(finals) > 1 {
+			// information only: the contract, not this comparison, decides (HistOutput!ReportIndep on the real code)
+			res.Count("edges_whose_report_depends_on_the_destination", 1)
 		}
 		if i%1499 == 0 {
 			res.Sample(map[string]any{"ops": acts, "values": concList(ops), "to": want.Pt, "got": got})
@@ -1227,26 +1267,50 @@ func replayExpl(g *vh.Graph, c *Cfg, vals []hVal, rep int, tw *vh.TraceWriter, r
 				ops = append(ops, SOp{M: conc[a.I-1], A: av})
 			}
 		}
-		var want hState
+		var from, want hState
+		vh.Must(json.Unmarshal(e.From, &from))
 		vh.Must(json.Unmarshal(e.To, &want))
-		cc := *c
-		cc.Gauge = i%3 == 0
-		lines, last, p := execScenario(i, &cc, dedup, ops, observeClass(i))
-		res.Executed++
-		if p != nil {
-			res.AddMismatch(vh.Mismatch{Kind: "panic", Case: map[string]any{"sc": i}, Path: acts, Detail: fmt.Sprint(p)})
-			continue
+		lastAct := acts[len(acts)-1]
+		classes := destClasses
+		if lastAct.Op == "Collect" {
+			classes = []string{observeClass(i)}
 		}
-		got := last.(HObs)
-		if chkDiffers(lines) {
-			res.Count("replayed_reports_changed_later", 1)
-		}
-		if !histEqual(got, want.Pt, c.Quant) || chkDiffers(lines) {
-			res.AddMismatch(vh.Mismatch{Kind: "refdiff", Case: map[string]any{"sc": i}, Path: acts[:len(acts)-1], Act: acts[len(acts)-1],
-				Want: want.Pt, Got: got, Detail: fmt.Sprintf("bounds %v values %v", c.FBounds, concList(ops))})
-			for _, l := range lines {
-				tw.Emit(l)
+		judged := map[string]bool{}
+		var got HObs
+		finals := map[string]bool{}
+		for ci, cls := range classes {
+			cc := *c
+			cc.Gauge = (i+ci)%3 == 0
+			lines, obs, p := execScenario(i*4+ci, &cc, dedup, ops, cls)
+			res.Executed++
+			if p != nil {
+				res.AddMismatch(vh.Mismatch{Kind: "panic", Case: map[string]any{"sc": i, "dest": cls}, Path: acts, Detail: fmt.Sprint(p)})
+				continue
 			}
+			got = obs[len(obs)-1].(HObs)
+			if fb, _ := json.Marshal(got); true {
+				finals[string(fb)] = true
+			}
+			if chkDiffers(lines) {
+				res.Count("replayed_reports_changed_later", 1)
+			}
+			differs := !histEqual(got, want.Pt, c.Quant) || chkDiffers(lines)
+			if lastAct.Op == "Collect" && len(obs) >= 2 && !histEqual(obs[len(obs)-2].(HObs), from.Pt, c.Quant) {
+				differs = true // what the edge's own collect reported (a delta stream then forgets it)
+			}
+			if differs {
+				res.AddMismatch(vh.Mismatch{Kind: "refdiff", Case: map[string]any{"sc": i, "dest": cls}, Path: acts[:len(acts)-1], Act: lastAct,
+					Want: want.Pt, Got: got, Detail: fmt.Sprintf("bounds %v values %v", c.FBounds, concList(ops))})
+				if k := obsKey(lines); !judged[k] {
+					judged[k] = true
+					for _, l := range lines {
+						tw.Emit(l)
+					}
+				}
+			}
+		}
+		if len(finals) > 1 {
+			res.Count("edges_whose_report_depends_on_the_destination", 1)
 		}
 		if i%1499 == 0 {
 			res.Sample(map[string]any{"ops": acts, "bounds": fmt.Sprint(c.FBounds), "values": concList(ops), "to": want.Pt, "got": got})
@@ -1816,8 +1880,11 @@ func random(args []string) {
 func probe() {
 	c := &Cfg{Kind: "expo", MaxSize: 1, MaxScale: 20, Cum: true, Bounds: []int{}}
 	ops := []SOp{{M: Meas{F: 0.5}}, {M: Meas{F: 4}}}
-	_, last, p := execScenario(0, c, buildRanks([]*big.Float{big.NewFloat(0.5), big.NewFloat(4)}), ops, "fresh")
-	o, _ := last.(EObs)
+	_, obs, p := execScenario(0, c, buildRanks([]*big.Float{big.NewFloat(0.5), big.NewFloat(4)}), ops, "fresh")
+	var o EObs
+	if len(obs) > 0 {
+		o, _ = obs[len(obs)-1].(EObs)
+	}
 	var sum int64
 	for _, x := range append(append([]int64{}, o.Pos...), o.Neg...) {
 		sum += x
